@@ -105,3 +105,135 @@ func verifCanary(label string, cond bool) {}
 //@   loop 0 invariant forall m int :: { endpoints[m] } 0 <= m && m <= rangeindex ==> !match(endpoints[m], q, mode)
 //@   loop 0 invariant policy == q && !(q == "" && mode == ua.MessageSecurityModeInvalid)
 //@   loop 0 decreases len(endpoints) - rangeindex
+
+// ---------------------------------------------------------------------------
+// C21: client calls never panic on any well-formed server response.
+//
+// "Well-formed" is what ua.Decode produces (decode.go decodeStruct/decodeSlice allocate every pointer
+// field and every pointer element; DataValue.Decode always allocates Value; ExpandedNodeID.Decode
+// always allocates NodeID; a Variant has the shape its decoder leaves, ua.variantShape). These
+// predicates state it for the response types the helpers below consume; respOK states it for
+// whatever the channel hands to a response handler. They are ASSUMED at the boundary (Send and the
+// ClientInterface methods); array lengths, status codes and value types are arbitrary.
+// ---------------------------------------------------------------------------
+
+//@ pred dvOK(d *ua.DataValue) := d != nil && ua.variantShape(d.Value)
+//@ pred readOK(r *ua.ReadResponse) := r != nil &&
+//@      (forall i int :: { r.Results[i] } 0 <= i && i < len(r.Results) ==> dvOK(r.Results[i]))
+//@ pred refOK(r *ua.ReferenceDescription) := r != nil && r.NodeID != nil && r.NodeID.NodeID != nil
+//@ pred brOK(b *ua.BrowseResult) := b != nil &&
+//@      (forall j int :: { b.References[j] } 0 <= j && j < len(b.References) ==> refOK(b.References[j]))
+//@ pred browseOK(r *ua.BrowseResponse) := r != nil &&
+//@      (forall i int :: { r.Results[i] } 0 <= i && i < len(r.Results) ==> brOK(r.Results[i]))
+//@ pred browseNextOK(r *ua.BrowseNextResponse) := r != nil &&
+//@      (forall i int :: { r.Results[i] } 0 <= i && i < len(r.Results) ==> brOK(r.Results[i]))
+//@ pred bptOK(t *ua.BrowsePathTarget) := t != nil && t.TargetID != nil && t.TargetID.NodeID != nil
+//@ pred bprOK(p *ua.BrowsePathResult) := p != nil &&
+//@      (forall j int :: { p.Targets[j] } 0 <= j && j < len(p.Targets) ==> bptOK(p.Targets[j]))
+//@ pred tbpOK(r *ua.TranslateBrowsePathsToNodeIDsResponse) := r != nil &&
+//@      (forall i int :: { r.Results[i] } 0 <= i && i < len(r.Results) ==> bprOK(r.Results[i]))
+
+//@ pred respOK(v ua.Response) := v != nil &&
+//@      (typeis(v, *ua.ReadResponse) ==> readOK(dyn(v, *ua.ReadResponse))) &&
+//@      (typeis(v, *ua.BrowseResponse) ==> browseOK(dyn(v, *ua.BrowseResponse))) &&
+//@      (typeis(v, *ua.BrowseNextResponse) ==> browseNextOK(dyn(v, *ua.BrowseNextResponse))) &&
+//@      (typeis(v, *ua.TranslateBrowsePathsToNodeIDsResponse) ==> tbpOK(dyn(v, *ua.TranslateBrowsePathsToNodeIDsResponse)))
+
+// safeAssign(t, &p) is `p = t` if the dynamic type of t is the type of p, and an error otherwise
+// (reflection; assumed). T is the type of p at the call site.
+//@ func safeAssign
+//@   props C21 C22
+//@   assumed
+//@   generic T elem ptrT
+//@   assigns *dyn(ptrT, *T)
+//@   ensures result == nil ==> typeis(t, T) && *dyn(ptrT, *T) == dyn(t, T)
+//@   ensures result != nil ==> !typeis(t, T) && *dyn(ptrT, *T) == old(*dyn(ptrT, *T))
+
+// The client as seen by Node (an interface): assumed. Nothing of a Node is written by the client.
+//@ func ClientInterface.Read
+//@   props C21
+//@   assumed
+//@   params c ctx req
+//@   assigns allbut Node
+//@   ensures err == nil ==> readOK(result0)
+//@ func ClientInterface.Browse
+//@   props C21
+//@   assumed
+//@   params c ctx req
+//@   assigns allbut Node
+//@   ensures err == nil ==> browseOK(result0)
+//@ func ClientInterface.BrowseNext
+//@   props C21
+//@   assumed
+//@   params c ctx req
+//@   assigns allbut Node
+//@   ensures err == nil ==> browseNextOK(result0)
+//@ func ClientInterface.NodeFromExpandedNodeID
+//@   props C21
+//@   assumed
+//@   params c id
+//@   requires [decoded-id] id != nil
+//@   assigns nothing
+//@ func ClientInterface.Send
+//@   props C21
+//@   assumed
+//@   params c ctx req h
+//@   assigns allbut Node
+//@   calls h nonnil
+//@   callarg h 0 respOK(cbarg)
+//@   ensures h != nil && err == nil ==> ran_h && res_h == nil
+
+//@ func (*Node).Attribute
+//@   props C21
+//@   requires n != nil && n.c != nil
+//@   assigns *
+//@   ensures [C21:value-or-error] err == nil ==> ua.variantShape(result0)
+
+//@ func (*Node).NodeClass
+//@   props C21
+//@   requires n != nil && n.c != nil
+//@   assigns *
+//@ func (*Node).BrowseName
+//@   props C21
+//@   requires n != nil && n.c != nil
+//@   assigns *
+//@ func (*Node).Description
+//@   props C21
+//@   requires n != nil && n.c != nil
+//@   assigns *
+//@ func (*Node).DisplayName
+//@   props C21
+//@   requires n != nil && n.c != nil
+//@   assigns *
+//@ func (*Node).AccessLevel
+//@   props C21
+//@   requires n != nil && n.c != nil
+//@   assigns *
+//@ func (*Node).UserAccessLevel
+//@   props C21
+//@   requires n != nil && n.c != nil
+//@   assigns *
+//@ func (*Node).Attributes
+//@   props C21
+//@   requires n != nil && n.c != nil
+//@   assigns *
+//@   loop 0 invariant n != nil && n.c != nil && req != nil
+//@ func (*Node).ReferencedNodes
+//@   props C21
+//@   requires n != nil && n.c != nil
+//@   assigns *
+//@ func (*Node).References
+//@   props C21
+//@   requires n != nil && n.c != nil
+//@   assigns *
+//@   ensures [C21:refs] err == nil ==> forall j int :: { result0[j] } 0 <= j && j < len(result0) ==> refOK(result0[j])
+//@ func (*Node).browseNext
+//@   props C21
+//@   requires n != nil && n.c != nil
+//@   requires forall i int :: { results[i] } 0 <= i && i < len(results) ==> brOK(results[i])
+//@   assigns *
+//@   ensures [C21:refs] err == nil ==> forall j int :: { result0[j] } 0 <= j && j < len(result0) ==> refOK(result0[j])
+//@ func (*Node).TranslateBrowsePathsToNodeIDs
+//@   props C21
+//@   requires n != nil && n.c != nil
+//@   assigns *
